@@ -399,6 +399,14 @@ def sites_and_facts(F, body, extra_facts=None):
                 f0 = [x for v, x in t["targets"] if v == 0]
                 if ln is not TOP and f0:
                     facts.append((("edge", bb, f0[0]), aff_add(ln, aff_const(1), -1), "!is_empty()"))
+        # `v.truncate(n)` with n <= len(v) (n is len(v) minus something non-negative): afterwards len(v) == n
+        if t["k"] == "call" and strip_generics(callee_def(t)).endswith("Vec::truncate") and len(t["args"]) == 2 and isinstance(t.get("t"), int):
+            ln_old = L.len_sym(t["args"][0], bb)
+            nv = L.operand(env_t, t["args"][1])
+            ln_new = L.len_sym(t["args"][0], t["t"])
+            if ln_old is not TOP and nv is not TOP and ln_new is not TOP and all(v >= 0 for v in aff_add(ln_old, nv, -1).values()):
+                facts.append((("edge", bb, t["t"]), aff_add(ln_new, nv, -1), "truncate(n): len == n"))
+                facts.append((("edge", bb, t["t"]), aff_add(nv, ln_new, -1), "truncate(n): len == n"))
         # a slice iterator that yields an element walks a non-empty slice: on the Some edge len >= 1
         if t["k"] == "call" and strip_generics(callee_def(t)).endswith("Iterator::next") and not t["dest"]["p"] and isinstance(t.get("t"), int):
             srcs = _slice_iter_source(b, t["args"][0])
